@@ -7,7 +7,7 @@ strategy present, BTree, KVStore without capacity, TransactionManager):
                   (props/c14_seq.py); ``sstable-index``: SSTable/bloom read path over all key subsets.
 2. ``overlap*-*`` (E2) 2-3 client processes in a real Simulation, every start offset on a grid finer
                   than the engines' latencies, interval-register oracle (props/c14_overlap.py).
-3. ``txn-*``      (E2) all interleavings of 2-3 transactions at every isolation level, brute-force
+3. ``txn-*``      (E2) all interleavings of 2-3 transactions (incl. reader + two writers of one key) at every isolation level, brute-force
                   serial-order / single-snapshot oracles (props/c14_txn.py).
 """
 from __future__ import annotations
@@ -183,6 +183,34 @@ def plan(tier):
                 jobs.append(("txn-3x1", "tx", (store, level, sets3[ch::10])))
     bounds["txn-3x1"] = {"transactions": 3, "ops_per_txn": 1, "stores": stores3, "levels": levels3,
                          "interleavings": "all merges of begin/op/commit (1680 per program set)"}
+    # one reader with two reads + two writers: the reader's snapshot must survive SEVERAL later commits
+    # on the same key (a key overwritten twice after the snapshot has an intermediate before-image)
+    readers = list(itertools.product([("r", "x"), ("r", "y")], repeat=2))
+    w1 = [(("w", "x"),), (("w", "y"),)]
+    wpairs = list(itertools.combinations_with_replacement(w1, 2))  # the two writers are interchangeable
+    sets211 = [(rd, a, b) for rd in readers for (a, b) in wpairs]
+    stores211 = ["kv"] if quick else list(TX.STORES)
+    # (at SERIALIZABLE a reader that overlaps writers of its keys always aborts: thorough only)
+    levels211 = ["SNAPSHOT_ISOLATION"] if quick else ["SERIALIZABLE", "SNAPSHOT_ISOLATION"]
+    for store in stores211:
+        for level in levels211:
+            for ps in sets211:
+                jobs.append(("txn-3x211", "tx", (store, level, [ps])))
+    bounds["txn-3x211"] = {"transactions": 3, "programs": "reader: every 2-read program on x,y; two writers with "
+                           "one write each (unordered)", "stores": stores211,
+                           "levels": levels211,
+                           "interleavings": "all merges of begin/ops/commit (4200 per program set)"}
+    if not quick:
+        w2 = [tuple(p) for p in itertools.product([("w", "x"), ("w", "y")], repeat=2)]
+        sets221 = [(rd, a, b) for rd in readers for a in w2 for b in w1]
+        for level in ("SERIALIZABLE", "SNAPSHOT_ISOLATION"):
+            for ps in sets221:
+                jobs.append(("txn-3x221", "tx", ("kv", level, [ps])))
+        bounds["txn-3x221"] = {"transactions": 3, "programs": "reader: every 2-read program; one writer with two "
+                               "writes, one writer with one write", "stores": ["kv"],
+                               "levels": ["SERIALIZABLE", "SNAPSHOT_ISOLATION"],
+                               "interleavings": "all merges (11550 per program set)"}
+
     # transactions as separate processes overlapping in simulated time (reads suspended across commits)
     osets = list(itertools.product(p2, repeat=2))
     ostores = ["kv", "btree"] if quick else list(TX.STORES)
